@@ -160,6 +160,33 @@ func parseSummary(out []byte) map[string]int {
 	return m
 }
 
+// parseSummaries splits stdout into its summary tables: a level that is already in the current table starts the next one.
+func parseSummaries(out []byte) []map[string]int {
+	var tables []map[string]int
+	var cur map[string]int
+	for _, l := range strings.Split(string(out), "\n") {
+		x := summaryRow.FindStringSubmatch(l)
+		if x == nil {
+			continue
+		}
+		if _, isLevel := map[string]bool{"info": true, "warn": true, "error": true, "fatal": true}[x[1]]; !isLevel {
+			continue
+		}
+		if cur == nil {
+			cur = map[string]int{}
+		} else if _, dup := cur[x[1]]; dup {
+			tables = append(tables, cur)
+			cur = map[string]int{}
+		}
+		n, _ := strconv.Atoi(x[2])
+		cur[x[1]] = n
+	}
+	if cur != nil {
+		tables = append(tables, cur)
+	}
+	return tables
+}
+
 func checkC15(ctx *core.Ctx, rep *core.Report) {
 	if os.Getenv("VERIF_ZLINT") == "" {
 		rep.InternalError("VERIF_ZLINT not set")
@@ -648,6 +675,52 @@ func checkC15(ctx *core.Ctx, rep *core.Report) {
 			if wants[k] != nil {
 				if d := compareResults(wants[k], got); d != "" {
 					v("multi_file_order", fmt.Sprintf("object %d does not belong to input %d (%s): %s", k+1, k+1, gr[k].Name, d), r, nil)
+				}
+			}
+		}
+	}
+	// ---- several files per invocation in the tabular modes: one table (two with both flags) per input, in order,
+	// each with the counts of ITS input — a table assembled from state that outlives one input shows up here
+	for gi, gr := range groups {
+		for _, om := range [][]string{{"-summary"}, {"-longSummary"}, {"-summary", "-longSummary"}} {
+			var r cliRun
+			r.args = append([]string{}, om...)
+			var wantCounts []map[string]int
+			for k, s := range gr {
+				r.args = append(r.args, write(fmt.Sprintf("gs%d_%d.pem", gi, k), encode(s, "pem")))
+				o, _ := zl.Parse(s.Kind, s.DER)
+				w, _ := c15Expect(o, lint.FilterOptions{}, "")
+				c := map[string]int{"info": 0, "warn": 0, "error": 0, "fatal": 0}
+				if w != nil {
+					for _, res := range w.Results {
+						if _, ok := c[res.Status.String()]; ok {
+							c[res.Status.String()]++
+						}
+					}
+				}
+				for range om {
+					wantCounts = append(wantCounts, c)
+				}
+			}
+			out, code, err := r.exec()
+			rep.Inc("states")
+			rep.Inc("cli_runs")
+			rep.Inc("multi_file_summary_runs")
+			if err != nil || code != 0 {
+				v("exit_nonzero_on_good_input", fmt.Sprintf("exit %d for %d good files with %v", code, len(gr), om), r, nil)
+				continue
+			}
+			rep.Inc("validated")
+			tables := parseSummaries(out)
+			if len(tables) != len(wantCounts) {
+				v("multi_file_summary_tables", fmt.Sprintf("%d summary tables on stdout for %d inputs with %v (expected %d)", len(tables), len(gr), om, len(wantCounts)), r, nil)
+				continue
+			}
+			for ti, got := range tables {
+				for lvl, n := range wantCounts[ti] {
+					if g, ok := got[lvl]; !ok || g != n {
+						v("multi_file_summary_counts", fmt.Sprintf("table %d of %d (input %s, flags %v) says %s=%d (present %v), the library's results for that input contain %d", ti+1, len(tables), gr[ti/len(om)].Name, om, lvl, g, ok, n), r, nil)
+					}
 				}
 			}
 		}
